@@ -12,8 +12,8 @@ package zztier
 import (
 	"github.com/hyperjumptech/grule-rule-engine/ast"
 	"github.com/hyperjumptech/grule-rule-engine/engine"
-	verif "github.com/hyperjumptech/grule-rule-engine/zzverif"
 	"github.com/hyperjumptech/grule-rule-engine/zzkb"
+	verif "github.com/hyperjumptech/grule-rule-engine/zzverif"
 )
 
 // fields that Clone legitimately regenerates or drops (DESIGN §8 C09 F)
